@@ -68,6 +68,19 @@ def cases(tier, inst):
     for t in trees_by_depth(PO_LEAVES[:4], 2):
         if Q.depth(t) == 2 and (thorough or hash(t) % 3 == 0):
             yield ("po", t, "op")
+    # a NEGATED leaf written once (s = not_(x.flag), s = not_(x.p < 2), s = not_(x.p == y.p)) and used in several places
+    # of a condition: it is the complement of the leaf in every one of them. Evaluated with the object shared, with one
+    # object per occurrence, and with the second occurrence written as the double negation of the shared one's operand
+    for vk, reps in (("xs", REPRESENTATIVE_8 if thorough else REPRESENTATIVE_4), ("xys", XY_REP if thorough else XY_REP[:4])):
+        for a0 in reps:
+            a = ("not", a0)
+            for b in reps:
+                if b == a0:
+                    continue
+                for t in (("or", a, ("and", a, b)), ("and", ("or", a, b), a), ("or", b, ("and", a, a)),
+                          ("and", a, ("or", b, a)), ("or", ("and", a, b), a), ("and", a, a), ("or", a, a),
+                          ("and", ("or", a, b), ("or", a, ("not", b))), ("or", ("and", a, b), ("and", a, ("not", b)))):
+                    yield (vk, t, "op")
     if thorough:
         for pair in ((REPRESENTATIVE_8[0], REPRESENTATIVE_8[2]), (XY_REP[0], XY_REP[3])):
             vk = "xy" if pair[0] in XY_REP else "x"
@@ -95,7 +108,7 @@ PO_LEAVES = [("cmp", op, A(X, "t"), A(Y, "t")) for op in ("lt", "le", "gt", "ge"
 def queries_of(case):
     vk, t, form = case
     neg = "inv" if form == "fn" else "not"
-    if vk == "x":
+    if vk in ("x", "xs"):
         vars_, sel = VARS1, (X,)
     elif vk in ("self", "po"):
         vars_, sel = VARS_SELF, (X, Y)
@@ -107,7 +120,40 @@ def queries_of(case):
     return mk(t), mk((neg, t)), mk((neg, (neg, t)))
 
 
+def run_shared(case, inst):
+    """the `xs` / `xys` families: one query, its negated leaves shared (one object) / written per occurrence"""
+    q = queries_of(case)[0]
+    wspec = GRID if case[0] == "xs" else RICH
+
+    def body():
+        out = []
+        for share in ("neg", False):
+            world = build_world(wspec, inst)
+            got = eval_rows(q, world, inst, share_conds=share)
+            ref = Q.Ref(world, inst)
+            exp = [tuple(env[s[1]] for s in q[3]) for env in ref.solutions(q)]
+            total = 1
+            for v in q[5]:
+                total *= len(ref.domain(v))
+            out.append((got, exp, total))
+        return out
+
+    out = run_isolated(body)
+    res = {"ok": True, "nontrivial": 0 < len(out[0][1]) < out[0][2], "transitions": 2,
+           "tags": [f"vars={case[0]}", f"root={root_kind(case[1])}", "form=shared-negated-leaf", "inner_not"],
+           "outcome": f"{len(out[0][1])}/{out[0][2]}"}
+    for name, (got, exp, total) in zip(("shared", "per-occurrence"), out):
+        d = diff_rows(got, exp, count=False)
+        if d is not None:
+            res.update(ok=False, sig=f"{name}:{d}/root={root_kind(case[1])}", obs=(name, row_labels(got)),
+                       exp=(name, row_labels(exp)))
+            return res
+    return res
+
+
 def run_case(case, inst):
+    if case[0] in ("xs", "xys"):
+        return run_shared(case, inst)
     qc, qn, qnn = queries_of(case)
     wspec = GRID if case[0] == "x" else (PO_WORLD if case[0] == "po" else RICH)
 
@@ -148,6 +194,10 @@ def run_case(case, inst):
 
 def describe(case, inst):
     qc, qn, qnn = queries_of(case)
+    if case[0] in ("xs", "xys"):
+        return (Q.up_world(GRID if case[0] == "xs" else RICH, inst) + "\n" + Q.up_query(qc, inst)
+                + "\n# every negated leaf not_(L) is ONE object (s = not_(L) written once, s used wherever not_(L) stands);"
+                  "\n# expected: the rows of the condition as written, the same as with one object per occurrence")
     wspec = GRID if case[0] == "x" else (PO_WORLD if case[0] == "po" else RICH)
     return (Q.up_world(wspec, inst) + "\n# each variant on a fresh world / fresh build:\n"
             + "\n".join(Q.up_query(q, inst) for q in (qc, qn, qnn))
